@@ -1,6 +1,9 @@
 import LoraVerif.Model.Device
 import LoraVerif.Lemmas.ExceptLemmas
 import LoraVerif.Props.C09
+import LoraVerif.Model.History
+import LoraVerif.Lemmas.MacWFStep
+import LoraVerif.Lemmas.Accept
 /-!
 # C04 — no received frame or network command can panic or hang the device
 
@@ -19,9 +22,27 @@ Proved here (for every field value of the commands / every random stream):
   channels defined always offers a usable channel (the accept set is non-empty);
 * `rejected_frame_no_panic`: a frame the reference codec rejects never reaches a fallible handler
   (corollary of C07).
-The composition over whole histories (every reachable state satisfies the plan invariants) is
-checked by the C04 correspondence: the model and the real code agree step by step, including on
-PANIC/HANG outcomes, over exhaustive field sweeps and random histories on both levels (MAC, device).
+**The composition over whole histories** (`Model/History.lean`: events `joinAbp`, `joinOtaa`,
+`uplink` (with the Class A procedure and radio faults at every position), `rxc`, `setAdr`, `setDr`;
+`step`, `run`) is proved by induction with the invariant `MacWF` (`Lemmas/MacWF*.lean`):
+* `init_wf` / `init_bias_wf`: the initial state of every region (with or without join bias) is well-formed;
+* `step_wf`: every step from a well-formed state under a valid event ends well-formed;
+* `step_no_panic`: … and does not panic — for EVERY received view (garbage, any data frame with any
+  field values and any MAC command byte stream, any JoinAccept incl. every DLSettings/RxDelay/CFList),
+  every SNR, every payload limit, every random stream;
+* `step_rx_returns`: events without a transmission (Class C reception, ABP activation, the setters)
+  RETURN — there is no retry loop on the receive side at all;
+* `run_no_panic`, `run_wf`: by induction over the event list, from `init`, no history of valid
+  events panics, and every state it reaches is well-formed.
+`ValidEv` is the application-side contract only (no payload on port 0, ≤ 222 payload bytes,
+`set_datarate` to an uplink data rate of the region) plus the representation facts of the decoded
+view (a CFList is five frequencies or a 9-byte mask); nothing the network controls is constrained.
+`Fault.hang` (a retry loop exhausting its draw budget) cannot be excluded for an arbitrary generator:
+a rejection-sampling loop accepts at the first acceptable draw.  What is proved instead is that the
+accept sets are never empty in any reachable state (`run_accept_nonempty`, `accept_nonempty`): there
+is a draw value on which `send` / `join_otaa` return at once — including the join-channel walk of the
+fixed plans, whose invariant (banks visited cyclically, one free channel taken per visit) is part
+of `MacWF`.
 -/
 open Model Gen.Region
 
@@ -196,12 +217,170 @@ theorem usable_ok (r : RegionId) (p : DynPlan) (h : DynWF r p) (i : Nat) (hi : i
     rw [List.getElem?_eq_getElem (by omega)]
     exact ⟨_, rfl⟩
 
+/-! ## the history-level invariant -/
+
+/-- the initial state of every region is well-formed, whatever the radio's maximum power, for every
+antenna gain that is an `i8` with `MAX_EIRP − gain ≤ 127` (`gainOk`) -/
+theorem init_wf (r : RegionId) (maxPower : Nat) (gain : Int) (hg : gainOk r gain = true) :
+    MacWF (MacState.init (RegionState.init r) maxPower gain) := by
+  apply MacWF.mk
+  · cases r <;> rfl
+  · cases r <;> rfl
+  · cases r <;> exact hg
+  · rfl
+
+theorem init_bias_wf (r : RegionId) (maxPower : Nat) (gain : Int) (sb retries : Nat) (hg : gainOk r gain = true)
+    (hsb : 1 ≤ sb ∧ sb ≤ 8) :
+    MacWF (MacState.init ((RegionState.init r).setJoinBias sb retries) maxPower gain) := by
+  apply MacWF.mk
+  · have hfix : ∀ r : RegionId, r.isFixed = true →
+        regionWF (MacState.init ((RegionState.init r).setJoinBias sb retries) maxPower gain).region = true := by
+      intro r hf
+      have hp : (MacState.init ((RegionState.init r).setJoinBias sb retries) maxPower gain).region.plan =
+          .fix { mask := Mask.default, jc := { preferredSubband := some sb, maxRetries := retries } } := by
+        simp [MacState.init, RegionState.init, RegionState.setJoinBias, hf]
+      refine (regionWF_fix hp).mpr ⟨?_, rfl, jcWF_iff.mpr ⟨rfl, ?_, avInv_fresh, biasFresh_iff.mpr (fun _ _ => ⟨rfl, rfl⟩)⟩⟩
+      · simp [MacState.init, RegionState.init, RegionState.setJoinBias, hf]
+      · intro sb' e; cases e; exact hsb
+    cases r <;> first | rfl | exact hfix _ rfl
+  · cases r <;> rfl
+  · cases r <;> exact hg
+  · rfl
+
+/-- **every step from a well-formed state under a valid event ends in a well-formed state** -/
+theorem step_wf {σ} (g : Rng σ) (m m' : MacState) (s s' : σ) (ev : Ev) (out : Out) (h : MacWF m) (hv : ValidEv m ev)
+    (hs : step g (m, s) ev = .ok ((m', s'), out)) : MacWF m' :=
+  ((step_safe g m s ev h hv).elim hs).1
+
+/-- … with the board constants and the region unchanged -/
+theorem step_keeps {σ} (g : Rng σ) (m m' : MacState) (s s' : σ) (ev : Ev) (out : Out) (h : MacWF m) (hv : ValidEv m ev)
+    (hs : step g (m, s) ev = .ok ((m', s'), out)) :
+    m'.region.id = m.region.id ∧ m'.antennaGain = m.antennaGain ∧ m'.maxPower = m.maxPower :=
+  ((step_safe g m s ev h hv).elim hs).2
+
+/-- **no step panics**: for every received view, every MAC command byte stream, every SNR, every
+payload limit, every random generator and generator state -/
+theorem step_no_panic {σ} (g : Rng σ) (m : MacState) (s : σ) (ev : Ev) (h : MacWF m) (hv : ValidEv m ev) :
+    ∀ site, step g (m, s) ev ≠ .error (.panic site) :=
+  (step_safe g m s ev h hv).no_panic
+
+/-- an event that transmits nothing -/
+def noTx : Ev → Bool
+  | .joinAbp _ _ _ | .rxc _ _ _ | .setAdr _ | .setDr _ => true
+  | _ => false
+
+/-- **the receive side returns**: a Class C reception of ANY frame (and the configuration calls)
+neither panics nor hangs — it yields a result and a well-formed state -/
+theorem step_rx_returns {σ} (g : Rng σ) (m : MacState) (s : σ) (ev : Ev) (h : MacWF m) (hv : ValidEv m ev)
+    (hn : noTx ev = true) : ∃ m' s' out, step g (m, s) ev = .ok ((m', s'), out) ∧ MacWF m' := by
+  have hs := step_safe g m s ev h hv
+  cases hst : step g (m, s) ev with
+  | ok r =>
+    obtain ⟨⟨m', s'⟩, out⟩ := r
+    rw [hst] at hs
+    exact ⟨m', s', out, rfl, hs.1⟩
+  | error e =>
+    exfalso
+    cases ev with
+    | joinOtaa fault rx1 rx2 mp1 mp2 => simp [noTx] at hn
+    | uplink data fport conf fault rx1 rx2 mp1 mp2 => simp [noTx] at hn
+    | joinAbp da nwk app => simp [step, pure, Except.pure] at hst
+    | setAdr on => simp [step, pure, Except.pure] at hst
+    | setDr dr => simp [step, pure, Except.pure] at hst
+    | rxc v snr mp =>
+      unfold step at hst
+      simp only at hst
+      obtain ⟨rf, hrf, _⟩ := macRxcConfig_tot m h
+      obtain ⟨⟨o, m'⟩, hrx, _⟩ := macHandleRx_tot m v mp snr true h hv
+      rw [hrf, hrx] at hst
+      simp [bind, Except.bind, pure, Except.pure] at hst
+
+/-- **no history panics.**  From the initial state of any region (any radio power, any admissible
+antenna gain), for every random generator, every finite history of valid events — arbitrary
+received frames, authentic frames carrying arbitrary MAC commands and JoinAccept fields, radio
+faults at every position — runs without a panic, by induction over the history. -/
+theorem run_no_panic {σ} (g : Rng σ) (r : RegionId) (maxPower : Nat) (gain : Int) (s : σ) (evs : List Ev)
+    (hg : gainOk r gain = true) (hv : ∀ ev ∈ evs, validEv r ev = true) :
+    ∀ site, run g (MacState.init (RegionState.init r) maxPower gain, s) evs ≠ .error (.panic site) :=
+  (run_safe g _ s evs (init_wf r maxPower gain hg) (by cases r <;> exact hv)).no_panic
+
+/-- the same with a join bias configured (`set_join_bias`, fixed-plan regions) -/
+theorem run_bias_no_panic {σ} (g : Rng σ) (r : RegionId) (maxPower : Nat) (gain : Int) (sb retries : Nat) (s : σ)
+    (evs : List Ev) (hg : gainOk r gain = true) (hsb : 1 ≤ sb ∧ sb ≤ 8) (hv : ∀ ev ∈ evs, validEv r ev = true) :
+    ∀ site, run g (MacState.init ((RegionState.init r).setJoinBias sb retries) maxPower gain, s) evs ≠ .error (.panic site) :=
+  (run_safe g _ s evs (init_bias_wf r maxPower gain sb retries hg hsb) (by cases r <;> exact hv)).no_panic
+
+/-- every state a history reaches is well-formed (so the next call cannot panic either) -/
+theorem run_wf {σ} (g : Rng σ) (r : RegionId) (maxPower : Nat) (gain : Int) (s s' : σ) (evs : List Ev) (m' : MacState)
+    (outs : List Out) (hg : gainOk r gain = true) (hv : ∀ ev ∈ evs, validEv r ev = true)
+    (hr : run g (MacState.init (RegionState.init r) maxPower gain, s) evs = .ok ((m', s'), outs)) : MacWF m' :=
+  ((run_safe g _ s evs (init_wf r maxPower gain hg) (by cases r <;> exact hv)).elim hr).1
+
+/-! ## the hang side: accept sets are never empty -/
+
+/-- **in every state a history reaches, the next `send` and the next `join` can return**: there is
+a draw value on which every retry loop they may enter accepts at once (the accept sets are not
+empty) — for the channel-plan and join-walk state reached by ANY history of valid events from the
+initial state of any region, whatever masks, channels, data rates and join attempts it went through.
+Together with `run_no_panic`: a call can only fail to return by the random generator never offering
+an accepted value. -/
+theorem run_accept_nonempty {σ} (g : Rng σ) (r : RegionId) (maxPower : Nat) (gain : Int) (s s' : σ) (evs : List Ev)
+    (m' : MacState) (outs : List Out) (hg : gainOk r gain = true) (hv : ∀ ev ∈ evs, validEv r ev = true)
+    (hr : run g (MacState.init (RegionState.init r) maxPower gain, s) evs = .ok ((m', s'), outs)) :
+    (∃ v, v < 64 ∧ ∀ {τ : Type} (t : τ), ∃ res, macJoinOtaa (constGen v) m' t = .ok res) ∧
+    (∀ data fport conf, (fport = 0 → data = []) → data.length ≤ 222 →
+      ∃ v, v < 64 ∧ ∀ {τ : Type} (t : τ), ∃ res, macSend (constGen v) m' data fport conf t = .ok res) := by
+  have hwf := run_wf g r maxPower gain s s' evs m' outs hg hv hr
+  exact ⟨macJoinOtaa_returns m' hwf, fun data fport conf h0 hl => macSend_returns m' data fport conf hwf h0 hl⟩
+
+/-- the same for any well-formed state (e.g. with a join bias configured) -/
+theorem accept_nonempty (m : MacState) (h : MacWF m) :
+    (∃ v, v < 64 ∧ ∀ {τ : Type} (t : τ), ∃ res, macJoinOtaa (constGen v) m t = .ok res) ∧
+    (∀ data fport conf, (fport = 0 → data = []) → data.length ≤ 222 →
+      ∃ v, v < 64 ∧ ∀ {τ : Type} (t : τ), ∃ res, macSend (constGen v) m data fport conf t = .ok res) :=
+  ⟨macJoinOtaa_returns m h, fun data fport conf h0 hl => macSend_returns m data fport conf h h0 hl⟩
+
 /-! non-vacuity -/
 example : ∃ r, channelMaskUpdate (RegionState.init .US915) Mask.default 4 0xAB 0xFF = .ok r := channelMaskUpdate_ok _ _ _ _ _ (by decide) |>.imp (fun _ h => h.1)
 example : (channelMaskUpdate (RegionState.init .EU868) Mask.default 4 1 2).toOption = some none := by decide
 
+/-- the hypotheses are satisfiable: initial states, admissible gains, a concrete history -/
+example : MacWF (MacState.init (RegionState.init .EU868) 14 2) := by decide
+example : MacWF (MacState.init (RegionState.init .US915) 30 (-3)) := by decide
+example : MacWF (MacState.init ((RegionState.init .AU915).setJoinBias 2 3) 22 0) := by decide
+example : gainOk .IN865 (-97) = true ∧ gainOk .IN865 (-98) = false := by decide
+
+def lcg : Rng Nat := fun x => ((x * 1103515245 + 12345) / 65536, x * 1103515245 + 12345)
+
+/-- LinkADRReq (ChMaskCntl 6, DR 5, TXPower 1), NewChannelReq, DevStatusReq in FOpts of a confirmed downlink -/
+def demoDownlink : RxView :=
+  .data { len := 30, confirmed := true, fcnt16 := 7, micFcnt := some 7,
+          fopts := [0x03, 0x51, 0xFF, 0x00, 0x60, 0x07, 0x04, 0x18, 0x4F, 0x84, 0x50, 0x06], fport := some 1, payload := [1, 2, 3] }
+
+def demoHistory : List Ev :=
+  [ .joinOtaa none (some (.joinAccept { micOk := true, devAddr := 1, dlSettings := 0x2F, rxDelay := 0, nwkKey := 3, appKey := 4, cfList := some (.dynamicChannel [867100000, 867300000, 0, 1, 867900000]) }, 5)) none 250 250,
+    .uplink [1, 2, 3] 1 true none (some (demoDownlink, -3)) none 250 250,
+    .rxc .garbage 0 250,
+    .uplink [] 0 false (some 1) (some (.garbage, 0)) none 250 250,
+    .setDr 3, .setAdr false,
+    .uplink [9] 2 false none none none 250 250 ]
+
+example : ∀ ev ∈ demoHistory, validEv .EU868 ev = true := by decide +kernel
+example : (run lcg (MacState.init (RegionState.init .EU868) 14 2, 1) demoHistory).toOption.map (fun r => r.2.length) = some 7 := by decide +kernel
+
 end C04
 
+#print axioms C04.init_wf
+#print axioms C04.init_bias_wf
+#print axioms C04.step_wf
+#print axioms C04.step_keeps
+#print axioms C04.step_no_panic
+#print axioms C04.step_rx_returns
+#print axioms C04.run_no_panic
+#print axioms C04.run_bias_no_panic
+#print axioms C04.run_wf
+#print axioms C04.run_accept_nonempty
+#print axioms C04.accept_nonempty
 #print axioms C04.channelMaskUpdate_ok
 #print axioms C04.isEnabled_ok
 #print axioms C04.drOfNat_ok
